@@ -46,7 +46,8 @@ DelivCats(m) ==
              \* (an empty body identifies nothing: its version is judged through the metadata only)
              bodyOK == IF wantLen = 0 THEN o.blen = 0 /\ ~o.trunc
                        ELSE /\ o.bodyOK /\ o.bk = r /\ o.bv = m.ver /\ o.blen = wantLen /\ o.off = wantOff
-                            /\ ~o.trunc /\ o.clen = wantLen
+                            \* (a length that is announced must be right; a streamed answer announces none)
+                            /\ ~o.trunc /\ o.clen \in {wantLen, -1}
              metaOK == o.over = ToString(m.ver)
          IN (IF okStatus THEN {}
              ELSE IF o.status >= 500 \/ o.status = 0
